@@ -320,8 +320,8 @@ From SudachiVerif Require Proofs.LexSetProofs Model.CodecCheck Model.CodecResolv
 Fact C01_e2e_layout_fact : LexSetProofs.layout_ok = true.
 Proof. vm_compute. reflexivity. Qed.
 
-(* every node handed to split_path either has no dictionary id (dictionary part 15: OOV or WordId::INVALID) or covers, in
-   the rewritten text, exactly the key of its word in the dictionary source *)
+(* every node handed to split_path either has no dictionary id (dictionary part 15: OOV or WordId::INVALID) or its id is
+   that of a row of the dictionary source and it covers, in the rewritten text, exactly the key of that row *)
 Theorem C01_path_nodes_cover_their_keys :
   forall (tk : tokenizer) (t : list N) (ds : SplitSource.srcs),
     Forall scalar t ->
@@ -330,7 +330,9 @@ Theorem C01_path_nodes_cover_their_keys :
     (forall p m, In m (offered_at the_cfg tk t p) -> BuildLatticeProofs.node_wf (length t) p m) ->
     forall a, pre_split the_cfg tk t = Ok a ->
     forall nd, In nd (pr_split_in a) ->
-      SplitSource.dic_part (Split.wid nd) = 15%N \/ SplitDict.covers t nd (SplitSource.src_key ds (Split.wid nd)).
+      SplitSource.dic_part (Split.wid nd) = 15%N \/
+      ((exists rr, SplitSource.src_row ds (Split.wid nd) = Some rr) /\
+       SplitDict.covers t nd (SplitSource.src_key ds (Split.wid nd))).
 Proof.
   exact (fun tk t ds Hsc Hcert Hnd Hsrc Hwf =>
     path_nodes_cover_their_keys the_cfg C01_facts_ok C01_e2e_layout_fact tk t Hsc ds Hcert Hnd Hsrc Hwf).
@@ -344,8 +346,9 @@ Print Assumptions C01_path_nodes_cover_their_keys.
           Unicode scalar values;
      H8'  the stack is what the C05 writer compiles from ds (stack_compiled), the rows come from the CSV reader and no
           dictionary has 2^28 words (srcs_ok), at most 15 dictionaries (LexiconSet::is_full), the split tables of tk are
-          those of the loaded stack, and in mode A (B) every word that declares two or more A (B) units satisfies
-          rows_units_ok: its units exist, have non-empty keys, and their keys concatenate to the key of the word. *)
+          those of the loaded stack, and in mode A (B) every word of the source (src_row ds w = Some _) that declares two
+          or more A (B) units satisfies rows_units_ok: its units exist, have non-empty keys, and their keys concatenate
+          to the key of the word. *)
 Theorem C01_tokenizer_end_to_end_from_rows :
   forall (tk : tokenizer) (t0 : list N) (o_simple : Oov.oovdef) (t : list N)
          (ds : SplitSource.srcs) (cs : list SplitSource.compiled) (nsp : N) (po : N -> N),
@@ -367,8 +370,10 @@ Theorem C01_tokenizer_end_to_end_from_rows :
     tk_hw tk = SplitSource.ld_hw cs nsp po ->
     tk_ua tk = SplitSource.ld_units cs nsp po true -> tk_ub tk = SplitSource.ld_units cs nsp po false ->
     match tk_mode tk with
-    | Split.ModeA => forall w, 2 <= length (SplitSource.ld_units cs nsp po true w) -> SplitSource.rows_units_ok ds true w = true
-    | Split.ModeB => forall w, 2 <= length (SplitSource.ld_units cs nsp po false w) -> SplitSource.rows_units_ok ds false w = true
+    | Split.ModeA => forall w rr, SplitSource.src_row ds w = Some rr ->
+                       2 <= length (SplitSource.ld_units cs nsp po true w) -> SplitSource.rows_units_ok ds true w = true
+    | Split.ModeB => forall w rr, SplitSource.src_row ds w = Some rr ->
+                       2 <= length (SplitSource.ld_units cs nsp po false w) -> SplitSource.rows_units_ok ds false w = true
     | Split.ModeC => True
     end ->
     exists ms, tokenize_model the_cfg tk t0 = Ok ms /\
@@ -426,8 +431,10 @@ Theorem C01_tokenizer_end_to_end_machine :
     tk_hw tk = SplitSource.ld_hw cs nsp po ->
     tk_ua tk = SplitSource.ld_units cs nsp po true -> tk_ub tk = SplitSource.ld_units cs nsp po false ->
     match tk_mode tk with
-    | Split.ModeA => forall w, 2 <= length (SplitSource.ld_units cs nsp po true w) -> SplitSource.rows_units_ok ds true w = true
-    | Split.ModeB => forall w, 2 <= length (SplitSource.ld_units cs nsp po false w) -> SplitSource.rows_units_ok ds false w = true
+    | Split.ModeA => forall w rr, SplitSource.src_row ds w = Some rr ->
+                       2 <= length (SplitSource.ld_units cs nsp po true w) -> SplitSource.rows_units_ok ds true w = true
+    | Split.ModeB => forall w rr, SplitSource.src_row ds w = Some rr ->
+                       2 <= length (SplitSource.ld_units cs nsp po false w) -> SplitSource.rows_units_ok ds false w = true
     | Split.ModeC => True
     end ->
     forall (nl nr : N) (data : list Z),
